@@ -75,6 +75,8 @@ def vmx_spec(draw, tier, combo=None):
     pairs = [draw(pair_spec(i, True)) for i in range(npairs)]
     if combo:
         pairs[correct].update(cipher=combo[0], mac=combo[1], kdf=combo[2])
+    if draw(st.integers(0, 11)) == 0:
+        pairs[correct]["passphrase"] = ""  # the empty string is a password like any other for PBKDF2
     data_cipher = draw(st.sampled_from(list(bx.KEY_SIZES)))
     # decoy pairs in front of the real one that decrypt, under the real passphrase, to bytes ending in valid padding by chance
     chance_padding = correct > 0 and draw(st.booleans())
@@ -136,6 +138,8 @@ def check(spec) -> Outcome:
     p = spec["pairs"][spec["correct"]]
     tag = f"{p['cipher']}|{p['mac']}|{p['kdf']}"
     out.cls(p["cipher"], p["mac"], p["kdf"], f"pairs={len(spec['pairs'])}")
+    if p["passphrase"] == "":
+        out.cls("empty-passphrase")
     inner_len = lengths["data:ct"]
     out.cls("inner<16" if inner_len == 16 else "inner>=16")
 
@@ -191,6 +195,11 @@ def check(spec) -> Outcome:
             out.fail(f"accepted|wrong-passphrase|{tag}", f"unlock succeeded with wrong passphrase {w!r}")
         elif v.attr != b4:
             out.fail(f"mutated|wrong-passphrase|{tag}", "attr changed although unlocking failed")
+        elif b4 != before:
+            # the same text parsed again, after another object made from it was unlocked: a new object starts locked
+            out.fail(f"mismatch|parse-again-after-unlock|{tag}", "a fresh VMX.parse() of the same text does not show the locked configuration "
+                                                               "after another object parsed from it was unlocked")
+            break
 
     # (c) single-byte tampering of every position of every field of the real pair and of encryption.data
     ntamper = 0
